@@ -309,4 +309,97 @@ theorem mapInPlace_eq (bombs : List Id) (v : Vec) (xs : List Id) (o : List Outco
       simp only [List.length_nil, this, ↓reduceIte, I_nil, List.nil_append, Nat.sub_zero]
       rw [← H_add]; congr 1; omega
 
+/-! ## conservation -/
+
+theorem scanSpec_perm (rest : List Id) : ∀ (kept : List Id) (o : List Outcome),
+    ((scanSpec kept rest o).1 ++ (scanSpec kept rest o).2.1 ++
+      (match (scanSpec kept rest o).2.2.1 with | some (some x) => [x] | _ => [])).Perm (kept ++ rest) := by
+  induction rest with
+  | nil => intro kept o; simp [scanSpec]
+  | cons x rest ih =>
+    intro kept o
+    match o with
+    | [] => simp [scanSpec]
+    | .panic :: o => simp [scanSpec]
+    | .ret b :: o =>
+      simp only [scanSpec]
+      split
+      · simp only [List.append_assoc]
+        exact List.Perm.append_left _ (List.perm_append_singleton _ _)
+      · have := ih (kept ++ [x]) o
+        simpa using this
+
+theorem extractRun_perm (calls : Nat) : ∀ (kept rest : List Id) (o : List Outcome),
+    ((extractRun calls kept rest o).1 ++ (extractRun calls kept rest o).2.1 ++
+      (extractRun calls kept rest o).2.2.2.1).Perm (kept ++ rest) := by
+  induction calls with
+  | zero => intro kept rest o; simp [extractRun]
+  | succ c ih =>
+    intro kept rest o
+    have hp := scanSpec_perm rest kept o
+    simp only [extractRun]
+    cases hsc : scanSpec kept rest o with
+    | mk kept' r1 =>
+      obtain ⟨rest', res, o'⟩ := r1
+      rw [hsc] at hp
+      cases res with
+      | none => simpa using hp
+      | some r2 =>
+        cases r2 with
+        | none => simpa using hp
+        | some x =>
+          have := ih kept' rest' o'
+          simp only at hp ⊢
+          refine List.Perm.trans ?_ hp
+          -- k ++ r ++ (x :: ys) ~ (k' ++ r') ++ [x]   with  k ++ r ++ ys ~ k' ++ r'
+          refine (List.perm_middle).trans ?_
+          refine (List.Perm.cons x this).trans ?_
+          exact (List.perm_append_singleton _ _).symm
+
+theorem extractSpec_perm (calls : Nat) (xs : List Id) (o : List Outcome) :
+    ((extractSpec calls xs o).final ++ (extractSpec calls xs o).dropped ++ (extractSpec calls xs o).escaped).Perm xs := by
+  simpa [extractSpec] using extractRun_perm calls [] xs o
+
+theorem extractSpec_len (calls : Nat) (xs : List Id) (o : List Outcome) :
+    (extractSpec calls xs o).final.length ≤ xs.length := by
+  have := (extractSpec_perm calls xs o).length_eq
+  simp only [List.length_append] at this; omega
+
+theorem mapSpec_perm (rest : List Id) : ∀ (done : List Id) (o : List Outcome),
+    ((mapSpec done rest o).final ++ (mapSpec done rest o).dropped ++ (mapSpec done rest o).escaped).Perm
+      (done ++ rest ++ mapIns rest o) := by
+  induction rest with
+  | nil => intro done o; simp [mapSpec, mapIns]
+  | cons x rest ih =>
+    intro done o
+    match o with
+    | [] =>
+      simp only [mapSpec, mapIns, List.nil_append, List.append_nil, List.append_assoc]
+      -- rest ++ (done ++ [x]) ~ done ++ x :: rest
+      refine List.perm_append_comm.trans ?_
+      simp only [List.append_assoc, List.singleton_append]
+      exact List.Perm.refl _
+    | .panic :: o =>
+      simp only [mapSpec, mapIns, List.nil_append, List.append_nil, List.append_assoc]
+      -- rest ++ (done ++ [x]) ~ done ++ x :: rest
+      refine List.perm_append_comm.trans ?_
+      simp only [List.append_assoc, List.singleton_append]
+      exact List.Perm.refl _
+    | .ret id :: o =>
+      have := ih (done ++ [id]) o
+      simp only [mapSpec, mapIns]
+      refine (List.perm_middle).trans ?_
+      refine (List.Perm.cons x this).trans ?_
+      simp only [List.append_assoc, List.singleton_append]
+      refine (List.perm_middle).symm.trans ?_
+      refine List.Perm.append_left _ ?_
+      refine List.Perm.cons x ?_
+      exact (List.perm_middle).symm
+
+theorem mapSpec_len (rest : List Id) (done : List Id) (o : List Outcome) :
+    (mapSpec done rest o).final.length ≤ done.length + rest.length := by
+  rcases mapSpec_final_length rest done o with h | h
+  · omega
+  · rw [h]; simp
+
 end Coll
